@@ -30,7 +30,7 @@ ASSUME = [
 MODULE_DIR = "AlertPersist"
 
 
-def _validate_jobs(sc, jobs, parallel=10, timeout=1500):
+def _validate_jobs(sc, jobs, parallel=8, timeout=1500):
     """jobs: [(tag, file, module, cfg)].  One TLC run per job (no re-splitting: the driver already writes
     files of ~25k lines).  Returns {tag: {"accepted", "rejections": [(fp, line, res)], "kf", "states"}}."""
     out = {}
@@ -97,7 +97,7 @@ def run(sc, tier, seed):
     R = V.Result("C08", tier, seed)
     # 1. design level
     cfg = "AlertPersist_quick.cfg" if tier == "quick" else "AlertPersist_thorough.cfg"
-    R.add_model(V.model_check(sc, MODULE_DIR, "AlertPersistMC.tla", cfg, workers=8, timeout=1500))
+    R.add_model(V.model_check(sc, MODULE_DIR, "AlertPersistMC.tla", cfg, workers=8 if tier == "quick" else 16, timeout=1500))
     # the recorded deviation is a genuine counterexample of the un-weakened property in the model as well
     obs = V.model_check(sc, MODULE_DIR, "AlertPersistMC.tla", "AlertPersist_obs.cfg", workers=4, timeout=600,
                         expect_violation=["StrictFinalStateEq"])
